@@ -103,6 +103,10 @@ def oracle(case):
                 if len(idx) and not np.array_equal(sub_pred[clear], full_pred[idx][clear]):
                     raise Violation(f"{label}: labels of rows {idx.tolist()} predicted alone {sub_pred.tolist()} differ from "
                                     f"{full_pred[idx].tolist()}")
+                # the same samples handed over as nested Python lists are the same samples
+                Pl = est.predict_proba(Q.tolist())
+                if np.shape(Pl) != P.shape or np.max(np.abs(np.asarray(Pl) - P)) > 1e-12:
+                    raise Violation(f"{label}: predict_proba of a list of lists differs from predict_proba of the equal array")
                 Ptr = est.predict_proba(X)
                 if not np.array_equal(Ptr.argmax(1), est.labels_):
                     raise Violation(f"{label}: predicting the training data does not reproduce labels_")
